@@ -7,6 +7,7 @@ from engine.rules import (MustPass, guard_edges, eq_matcher, pred_matcher, outco
                           success_values, slice_patterns, loop_each_checked, bool_atom, switch_bool_edges)
 from engine.sym import strip, strip_deep, render, walk, short
 from props import common as K
+from props.common import is_derived_body
 
 META = {
     "level": "other",
@@ -167,6 +168,28 @@ def run(ctx):
         got = sorted((short(c.res), K.arg_renders(c)[1:]) for c in rl.calls() if (c.res or "").startswith(BR))
         ctx.ob("R-REG", "Reader::reset_and_limit", got == [("BufReadCounter::limit", ["limit"]), ("BufReadCounter::reset", [])],
                "reset_and_limit zeroes the counter and installs the given limit", where=rl.loc, detail=got)
+    # who may zero the counter: only reset_and_limit, and never from inside a loop of the event pullers (a reset per
+    # skipped comment / declaration would make the limit per event instead of per element)
+    cs = calls_to(f, lambda c: c.res in ("%s::<R>::reset" % BR, "%s::<R>::limit" % BR))
+    who = sorted({root_fn(f, c.body.name) for c in cs if not c.body.is_cleanup(c.bb)})
+    ctx.ob("R-WHO", "BufReadCounter::reset/limit-callers", who == [D + "Reader::<R>::reset_and_limit"],
+           "the byte counter is zeroed / re-limited only by Reader::reset_and_limit", detail=who)
+    inloop = []
+    nres = 0
+    for n, b in f.bodies.items():
+        if not n.startswith(D) or is_derived_body(b):
+            continue
+        sccs = b.cycles_sccs()
+        for c in b.calls():
+            if b.is_cleanup(c.bb) or c.res not in (D + "Reader::<R>::reset_and_limit", "%s::<R>::reset" % BR):
+                continue
+            nres += 1
+            if any(c.bb in comp for comp in sccs):
+                inloop.append("%s @ %s" % (short(root_fn(f, n)), c.where()))
+    ctx.ob("R-CHK", "xml::decode:no-reset-inside-a-puller-loop", not inloop,
+           "no function of xml::decode resets the byte counter inside one of its own event-skipping loops (the limit covers "
+           "everything up to and including the element it is set for)", detail=inloop or None)
+    ctx.floor("R-CHK", "counter resets in xml::decode", nres, 4)
     # quick-xml is only ever handed the counting reader
     mk = calls_to(f, lambda c: re.search(r"quick_xml::.*(NsReader|Reader).*::from_reader$", c.res or "") is not None)
     sites = sorted({root_fn(f, c.body.name) for c in mk})
